@@ -4,6 +4,7 @@ import (
 	"bytes"
 	"encoding/json"
 	"fmt"
+	"github.com/dcaiafa/lox/verif/internal/root"
 	"os"
 	"os/exec"
 	"path/filepath"
@@ -60,26 +61,26 @@ type c14Case struct {
 }
 
 func c14Worker(c *mc.Ctx) {
-	root, err := os.MkdirTemp(pipe.ScratchRoot(), "loxmc.c14.")
+	tmpRoot, err := os.MkdirTemp(pipe.ScratchRoot(), "loxmc.c14.")
 	if err != nil {
 		c.Stats.HarnessError("%v", err)
 		return
 	}
-	defer os.RemoveAll(root)
+	defer os.RemoveAll(tmpRoot)
 	violate := func(dir, stage, file, detail string) {
 		raw, _ := json.Marshal(c14Case{Dir: dir, Stage: stage, File: file, Detail: detail})
 		c.Stats.Violate(mc.Violation{Property: "C14", Check: "C14", Kind: "not-a-fixpoint", Size: len(dir), Case: raw,
 			Detail: fmt.Sprintf("%s, %s: %s %s", dir, stage, file, detail)})
 	}
 	// Stage 0: generator built from the current tree.
-	lox1 := filepath.Join(root, "lox1")
-	if out, err := run("/repo", "go", "build", "-o", lox1, "./cmd/lox"); err != nil {
+	lox1 := filepath.Join(tmpRoot, "lox1")
+	if out, err := run(root.Repo(), "go", "build", "-o", lox1, "./cmd/lox"); err != nil {
 		c.Stats.HarnessError("cannot build lox from the current tree: %v: %s", err, out)
 		return
 	}
 	checked := map[string]map[string]string{}
 	for _, d := range c14Dirs {
-		m, err := genFiles(filepath.Join("/repo", d))
+		m, err := genFiles(root.RepoPath(d))
 		if err != nil {
 			c.Stats.HarnessError("%v", err)
 			return
@@ -125,22 +126,22 @@ func c14Worker(c *mc.Ctx) {
 		}
 	}
 	// Stage 1: regenerate a scratch copy with the current generator.
-	t1 := filepath.Join(root, "t1")
-	if err := copyTree("/repo", t1); err != nil {
+	t1 := filepath.Join(tmpRoot, "t1")
+	if err := copyTree(root.Repo(), t1); err != nil {
 		c.Stats.HarnessError("%v", err)
 		return
 	}
 	regen("stage 1 (generator built from the tree, over the checked-in files)", t1, lox1, false)
 	// Stage 1b: from the state "generated files deleted" (examples only: lox's own
 	// front end is needed to build lox, and is covered by stage 2).
-	t1b := filepath.Join(root, "t1b")
-	if err := copyTree("/repo", t1b); err != nil {
+	t1b := filepath.Join(tmpRoot, "t1b")
+	if err := copyTree(root.Repo(), t1b); err != nil {
 		c.Stats.HarnessError("%v", err)
 		return
 	}
 	regen("stage 1b (generated files deleted first)", t1b, lox1, true)
 	// Stage 2: build the generator from the regenerated tree and regenerate again.
-	lox2 := filepath.Join(root, "lox2")
+	lox2 := filepath.Join(tmpRoot, "lox2")
 	if out, err := run(t1, "go", "build", "-o", lox2, "./cmd/lox"); err != nil {
 		violate("internal/parser", "stage 2", "-", "the tree with the regenerated front end does not build: "+firstLine(out))
 		return
